@@ -120,7 +120,7 @@ def tree_eval(prog):
     try:
         ev, VE, SE = _classes(prog)
         T = ClsRef(ev, prog.cls("exceptions.ErrorTree"))
-        inst = {"x": [10, 20], "y": 1, "a.b": 2, "a": {"b": 3}}
+        inst = {"x": [10, 20], "y": 1, "a.b": 2, "a": {"b": 3}, "2024": "digit-named member", "0": "zero"}
         e0 = VE("n", validator="pattern", path=[], instance="x")      # an error under propertyNames: its instance is a member *name*
         e1 = VE("a", validator="type", path=[], instance=inst)
         e2 = VE("b", validator="minimum", path=["x", 0], instance=10)
@@ -189,8 +189,9 @@ def tree_eval(prog):
         # arrival order is the validator's business: siblings first, then a deeper error under the first sibling (two allOf branches
         # over one object), shallow after deep, a shared prefix after an unrelated path
         out["order"] = None
-        f1 = VE("p", validator="type", path=["a"], instance=1)
-        f2 = VE("q", validator="type", path=["b"], instance=2)
+        shared = {"the same": "object at two places"}       # one Python object may sit at several places of an instance
+        f1 = VE("p", validator="type", path=["a"], instance=shared)
+        f2 = VE("q", validator="type", path=["b"], instance=shared)
         f3 = VE("r", validator="minimum", path=["a", "b"], instance=3)
         f4 = VE("s", validator="maximum", path=["a", "b", "c"], instance=4)
         f5 = VE("t", validator="type", path=["a", "c"], instance=5)
@@ -233,6 +234,14 @@ def tree_eval(prog):
         except PyRaise as pr:
             out["name-instance"] = ("looking up an error-free member of the object raises %s when the node's recorded instance is a member *name* (a propertyNames "
                                     "error was filed there last: its instance is the name, a string, which is then subscripted)" % pr.name)
+        # a member whose name is made of digits is a member (of an object), not an array position
+        for idx in ("2024", "0"):
+            try:
+                qd = tree[idx]
+                if not (isinstance(qd, Obj) and g(qd, "total_errors") == 0):
+                    out["absent-index"] = "looking up the error-free member %r of an object does not give an empty tree" % idx
+            except PyRaise as pr:
+                out["absent-index"] = "looking up the error-free member %r of an object raises %s (a digit string is a member name there, not an index)" % (idx, pr.name)
         for node, idx, exc in ((tree, "z", "KeyError"), (x, 5, "IndexError")):
             try:
                 node[idx]
